@@ -679,8 +679,18 @@ P_DOTTED = ([('dotted-stdlib', m + '.' + a) for m, a in zip(DOTTED_MODULES, ['Li
 P_CALL = [('call', x) for x in ("dtype('f4')", 'float(1)', 'Sensor()', "int('4')", 'str(1)', 'len(())')]
 P_GENERAL = P_CODE + P_PATH + P_NUM + P_FMT + P_MISC + P_DTYPE_OK[:6] + P_DTYPE_NEAR[:6] + P_CALL
 P_DTYPE_ALL = P_DTYPE_OK + P_DTYPE_NEAR + P_CODE + P_PATH[:4] + P_NUM[:4] + P_FMT[:6] + P_MISC[:6]
+_FS, _FD, _FB = '\uff0f', '\uff0e', '\uff3c'          # FULLWIDTH SOLIDUS / FULL STOP / REVERSE SOLIDUS
+P_LOOKALIKE = [('lookalike', x) for x in (
+    _FD * 2 + _FS + _FD * 2 + _FS + _FD * 2 + _FS + 'escaped',                 # NFKC -> ../../../escaped
+    '\u2025' + _FS + '\u2025' + _FS + '\u2025' + _FS + 'esc2',                  # TWO DOT LEADER -> ..
+    '\u2024\u2024' + _FS + '\u2024\u2024' + _FS + '\u2024\u2024' + _FS + 'esc3',  # ONE DOT LEADER x2
+    '\ufe52\ufe52' + _FS + '\ufe52\ufe52' + _FS + '\ufe52\ufe52' + _FS + 'esc4',  # SMALL FULL STOP
+    'a' + _FS + (_FD * 2 + _FS) * 4 + 'esc5',
+    _FD * 2 + _FB + 'esc6', 'x\u2044y', (_FD * 2 + '\u2044') * 3 + 'esc7', (_FD * 2 + '\u2215') * 3 + 'esc8',
+    _FD * 2, _FD, '\u2024\u2024', 'e\u0301tude', '\u212bngstrom', '\ufb01le', '\uff33\uff29\uff26\uff34', 'x\u00adx',
+    '\u202e../x', 'a\u2215b')]
 P_SIBLING = [('sibling', x) for x in ('../../../ds_v2', 'x/../../../../ds2', '../../../ds.bak/k', '../../../dsx')]
-P_NAME = P_SIBLING + P_PATH + P_CODE[:3] + [('empty', ''), ('name', 'SIFT'), ('name', 'r2d2_WASF-N8_20k'), ('name', 'a.b'),
+P_NAME = P_SIBLING + P_LOOKALIKE + P_PATH + P_CODE[:3] + [('empty', ''), ('name', 'SIFT'), ('name', 'r2d2_WASF-N8_20k'), ('name', 'a.b'),
                                 ('name', '..x'), ('name', 'x..'), ('name', '...'), ('nul', 'a\x00b'), ('name', 'cam0'),
                                 ('unicode', 'é'), ('space', 'a b'), ('name', 'keypoints.txt'), ('name', 'SIFT/'),
                                 ('name', '/SIFT'), ('name', 'a//b'), ('name', '\\')]
@@ -787,7 +797,7 @@ def gen_cases(rng, tier):
     # B. every field of every file
     for tgt in _positions(full[0]):
         for pcls, pl in rng.sample(P_GENERAL, 5 if big else 1):
-            if big or rng.random() < 0.25:
+            if big or rng.random() < 0.15:
                 var, tree = _variant_for(rng, full, tgt[0])
                 mk('load', tree, tgt, pcls, pl, var)
     for tgt in _positions(v10[0]):
@@ -804,7 +814,7 @@ def gen_cases(rng, tier):
             var, tree = _variant_for(rng, full, tgt[0], 0.9)
             mk('load', tree, tgt, pcls, pl, var)
     for i, tgt in enumerate(_positions(v10[0])):
-        if big or tgt[0] == SENSORS or rng.random() < 0.25:
+        if big or tgt[0] == SENSORS or rng.random() < 0.15:
             pcls, pl = (('dotted-stdlib', P_DOTTED[i % len(DOTTED_MODULES)][1]) if i % 2 == 0 else dotted[rng.randrange(len(dotted))])
             mk('upgrade', v10 if rng.random() < 0.3 else _subset(v10, _SENS if tgt[0].startswith('sensors/') else _FEATV), tgt,
                pcls, pl, 'v10', [None, None, None])
@@ -832,10 +842,51 @@ def gen_cases(rng, tier):
     # D. the name field of the 1.0 descriptor files becomes a folder name during the upgrade
     for tgt0 in dt_up:
         for pcls, pl in P_NAME:
-            if big or pcls == 'sibling' or rng.random() < 0.45:
+            if big or pcls == 'sibling' or (pcls == 'lookalike' and (rng.random() < 0.5 or pl.endswith('escaped'))) or rng.random() < 0.4:
                 mk('upgrade', v10, (tgt0[0], 0, 0), pcls, pl, 'v10', [None, None, None])
         for pcls, pl in rng.sample(P_NAME, 3):
             mk('upgrade', v10, (tgt0[0], 0, 0), pcls, pl, 'v10', ['k', 'd', 'g'])
+    # H. feature-type FOLDERS whose names look like path syntax after unicode normalisation, with a decoy descriptor file
+    #    where a normalised name would lead (next to the dataset folder, inside the sandbox)
+    cfgs = {'keypoints': 'X, uint8, 2', 'descriptors': 'X, uint8, 2, SIFT, L2', 'global_features': 'X, int64, 2, L2'}
+    for kind, cfg in cfgs.items():
+        for j, (pcls, nm) in enumerate(P_LOOKALIKE):
+            if '/' in nm or '\\' in nm or not (big or j < 4 or j % 3 == rng.randrange(3)):
+                continue
+            tree = _subset(full, _FEATV)
+            files = dict(tree[0])
+            files['reconstruction/%s/%s/%s.txt' % (kind, nm, kind)] = '# kapture format: 1.1\n# x\n' + cfg.replace('X', 'u') + '\n'
+            esc = nm.translate({0xff0f: '/', 0xff0e: '.', 0x2024: '.', 0xfe52: '.', 0x2025: '..'}).split('/')[-1]
+            cases.append({'op': 'load', 'files': files, 'bins': list(tree[1]), 'up_types': None,
+                          'outside': {'%s/%s.txt' % (esc, kind): '# kapture format: 1.1\n# x\n' + cfg.replace('X', 'decoy').replace(
+                              cfg.split(', ')[1], _TOUCH) + '\n'} if (esc and esc != nm and esc not in ('.', '..') and esc.isascii()) else {},
+                          'label': {'target': ['reconstruction/%s/%s/%s.txt' % (kind, nm, kind), 0, 0], 'pclass': 'lookalike',
+                                    'payload': nm, 'variant': 'feat+folder', 'note': 'feature folder name'}})
+    # I. half-upgraded datasets (an interrupted in-place upgrade): keypoints already in 1.1 layout, the rest still 1.0
+    for name in ('../../../leaked', 'SIFT', _FD * 2 + _FS + _FD * 2 + _FS + _FD * 2 + _FS + 'leaked2', _TOUCH, ''):
+        for sens_ver in ('1.0', '1.1'):
+            for keep in (('sensors/sensors.txt', 'reconstruction/matches/'),
+                         ('sensors/sensors.txt', 'reconstruction/matches/', 'reconstruction/descriptors/', 'reconstruction/observations.txt')):
+                if not big and (sens_ver == '1.1') != (len(keep) == 2):
+                    continue
+                sub = _subset(v10, keep)
+                files = dict(sub[0])
+                files[SENSORS] = files[SENSORS].replace('# kapture format: 1.0', '# kapture format: ' + sens_ver)
+                files['reconstruction/keypoints/SIFT/keypoints.txt'] = '# kapture format: 1.1\n# name, dtype, dsize\n%s, float32, 4\n' % name
+                cases.append({'op': 'upgrade', 'files': files, 'bins': list(sub[1]) + ['reconstruction/keypoints/SIFT/cam0/0000.jpg.kpt'],
+                              'up_types': [None, None, None],
+                              'label': {'target': ['reconstruction/keypoints/SIFT/keypoints.txt', 0, 0], 'pclass': 'mixed-state',
+                                        'payload': name, 'variant': 'half-upgraded', 'note': 'interrupted upgrade'}})
+    # J. histories: another dataset was at the same path before and was loaded by the same process
+    hist = _subset(full, _FEATV)
+    for kind, sub in (('keypoints', 'SIFT'), ('descriptors', 'SIFT'), ('global_features', 'APGEM')):
+        p = 'reconstruction/%s/%s/%s.txt' % (kind, sub, kind)
+        for pcls, pl in [('dtype-near', 'uint9'), ('code-touch', _TOUCH), ('dtype-ok', 'np.int16')] + ([('num', '-1'), ('empty', '')] if big else []):
+            for col in ((1,) if not big else (0, 1, 2)):
+                cases.append({'op': 'load', 'files': _mutate(hist[0], (p, 0, col), pl), 'bins': list(hist[1]), 'up_types': None,
+                              'history': [{'op': 'load', 'files': dict(hist[0]), 'bins': list(hist[1])}],
+                              'label': {'target': [p, 0, col], 'pclass': pcls, 'payload': pl, 'variant': 'feat+history',
+                                        'note': 'same path loaded before with other content'}})
     # E. structure: one part missing, empty descriptor file, extra feature types
     for p in sorted(full[0]):
         files = {q: t for q, t in full[0].items() if q != p}
@@ -934,6 +985,8 @@ def _desired(case):
         want['ds/' + rel] = text.encode('utf-8')
     for rel in case['bins']:
         want['ds/' + rel] = _bin_content(rel)
+    for rel, text in (case.get('outside') or {}).items():      # decoys next to the dataset folder, inside the sandbox
+        want[rel] = text.encode('utf-8')
     dirs = {'ds/'}
     for rel in want:
         parts = rel.split('/')[:-1]
@@ -973,9 +1026,19 @@ def _sync(base, want):
 def _run_once(case, ctx):
     base = os.path.join(ctx['tmp'], 'c')
     root = os.path.join(base, 'ds')
+    w = _worker(ctx)
+    # history: datasets that were at the SAME path before and were loaded by the same process (not judged); what the
+    # implementation does with the case's dataset must not depend on them
+    for h in case.get('history') or []:
+        _sync(base, _desired({'files': h['files'], 'bins': h.get('bins', []), 'outside': case.get('outside')}))
+        try:
+            w.request({'cmd': 'case', 'op': h.get('op', 'load'), 'root': root, 'base': base, 'up_types': None, 'importable': False})
+        except Exception:
+            w.stop()
+            w = _worker(ctx)
+        _DISK[base] = _snapshot(base)
     before = _desired(case)
     _sync(base, before)
-    w = _worker(ctx)
     try:
         res = w.request({'cmd': 'case', 'op': case['op'], 'root': root, 'base': base, 'up_types': case.get('up_types'),
                          'importable': bool(case.get('importable'))})
